@@ -72,6 +72,10 @@ def run(prog, rep):
     # container clause
     ct = Container(prog)
     rep.attempt(ct.check_c02, rep)
+    # the size recorded for a REPLACED block is the new block's only because replace_block is remove + add (add_block records
+    # newBlock.nBytes): a replace with file / table effects of its own (an in-place rewrite that keeps the old entry) is outside it
+    from .c11 import replace_composition
+    rep.attempt(replace_composition, ct, rep, rule="container-size/replace-composition")
     from .. import primitives as PR
     from .c01 import equivalence_discharge
     rep.attempt(PR.tdftype_primitives, prog, rep)
